@@ -460,6 +460,7 @@ def run(scenario, make_agents=None):
     _time.sleep = sim.sleep
     wtower.sleep = sim.sleep
     wreg.calculate_regression = rec_reg
+    unhook = _install_preemption(sim, sc.get("preempt"))
     try:
         if sc.get("argv"):
             crashed, exited = _run_main(sim, sc)
@@ -495,9 +496,47 @@ def run(scenario, make_agents=None):
             crashed = type(e).__name__
     finally:
         sim.abort_handlers()
+        unhook()
         _time.time, _time.sleep, wtower.sleep, wreg.calculate_regression = saved
         fake_socketio.set_factory(None)
     return {"sim": sim, "crashed": crashed, "exited": exited}
+
+
+def _install_preemption(sim, spec):
+    """`spec` = {"nth": [k, ...], "d": seconds}: the socket thread is pre-empted (the handler that is running goes to
+    sleep for `d` seconds, the main thread carries on) at its k-th log record.  Log records are the only places
+    where a handler can be made to pause from outside without touching the code; a slow log sink does the same
+    in real life.  The timed model does not know about this, so such sessions are judged by their oracle only."""
+    if not spec:
+        return lambda: None
+    import logging
+    count = [0]
+    nth = set(spec["nth"])
+
+    class Preempt(logging.Filter):
+        def filter(self, record):
+            h = sim.handler
+            if h is not None and threading.current_thread() is h.thread and not sim.aborting:
+                count[0] += 1
+                if count[0] in nth:
+                    sim.sleep(spec["d"])
+            return False            # (nothing is ever written)
+    class Sink(logging.Handler):
+        def emit(self, record):
+            pass
+    sink = Sink(level=logging.DEBUG)
+    sink.addFilter(Preempt())
+    root = logging.getLogger()
+    prev_disable, prev_level = logging.root.manager.disable, root.level
+    logging.disable(logging.NOTSET)
+    root.addHandler(sink)
+    root.setLevel(logging.DEBUG)
+
+    def unhook():
+        root.removeHandler(sink)
+        root.setLevel(prev_level)
+        logging.disable(prev_disable)
+    return unhook
 
 
 def _run_main(sim, sc):
